@@ -22,6 +22,7 @@ import (
 	"time"
 
 	"github.com/safing/portbase/api"
+	"github.com/safing/portbase/config"
 	"github.com/safing/portbase/database/record"
 	"github.com/safing/portbase/dataroot"
 	"github.com/safing/portbase/log"
@@ -40,12 +41,12 @@ type custom struct {
 
 type ptrErr struct{ msg string }
 
-func (e *ptrErr) Error() string {
-	if e == nil {
-		return "<nil ptrErr>"
-	}
-	return e.msg
-}
+func (e *ptrErr) Error() string { return e.msg } // a nil receiver panics here (fmt's %s survives that)
+
+// strg: a Stringer whose String method dereferences its (possibly nil) receiver.
+type strg struct{ s string }
+
+func (x *strg) String() string { return x.s }
 
 type evilErr struct{}
 
@@ -117,8 +118,9 @@ var pvals = map[string]pvInfo{
 	"wcexit":   {func() { panic(wrapCleanExit) }, sameErr(wrapCleanExit), "err.cleanexit"},
 	// a panic value that is itself a panic error of package modules (re-panicking what a nested RunWorker returned)
 	"moderr": {func() { panic(innerModErr) }, func(v any) bool { e, ok := v.(*modules.ModuleError); return ok && e == innerModErr }, "err"},
-	// a typed nil pointer that implements error
+	// typed nil pointers whose Error / String method panics when called directly (the `var e *T; return e` slip)
 	"nilerrptr": {func() { panic((*ptrErr)(nil)) }, func(v any) bool { p, ok := v.(*ptrErr); return ok && p == nil }, "err"},
+	"nilstrg":   {func() { panic((*strg)(nil)) }, func(v any) bool { p, ok := v.(*strg); return ok && p == nil }, "other"},
 }
 
 // clsOf classifies a recovered panic value the way the model does.
@@ -205,8 +207,8 @@ type item struct {
 	free       bool // burst item: the function ends at once
 	entered    chan int
 	release    chan struct{}
-	done       chan error // blocking variants: the returned error
-	http       chan int   // api kinds: the response status
+	done       chan error  // blocking variants: the returned error
+	http       chan string // api kinds: the response status ("d" appended: the body is the dev-mode page)
 	task       *modules.Task
 	afterWrite bool
 	lastOut    outcome
@@ -847,6 +849,28 @@ func (c *child) do(line string) string {
 		}
 		return fmt.Sprintf("cnt=%s last=%s ch=%d", c.counters(), c.lastStr(), c.chLen())
 
+	case "devmode": // devmode on|off: config.SetConfigOption("core/devMode", …); not while a request is in flight
+		if len(f) != 2 || !c.apiMode || !c.startOK || (f[1] != "on" && f[1] != "off") {
+			return "bad-op"
+		}
+		for _, it := range c.items {
+			if it.held {
+				return "bad-op"
+			}
+		}
+		if err := config.SetConfigOption(config.CfgDevModeKey, f[1] == "on"); err != nil {
+			return "err " + strings.ReplaceAll(err.Error(), " ", "_")
+		}
+		// the "config change" event runs the api module's hook as a short-lived worker: let it pass
+		idleSince := time.Now()
+		c.waitUntil(settleTimeout, func() bool {
+			if c.counters() != (cnt{}) {
+				idleSince = time.Now()
+			}
+			return time.Since(idleSince) > 60*time.Millisecond
+		})
+		return "ok"
+
 	case "chan": // chan unset|<capacity>: SetErrorReportingChannel before anything runs; from now on only `recv` reads it
 		if len(f) != 2 || c.started || c.manual {
 			return "bad-op"
@@ -946,7 +970,7 @@ func (c *child) do(line string) string {
 			}
 		}
 		it := &item{id: f[1], kind: f[2], outs: outs, entered: make(chan int, 64), release: make(chan struct{}, 64),
-			done: make(chan error, 1), http: make(chan int, 1)}
+			done: make(chan error, 1), http: make(chan string, 1)}
 		if len(f) == 5 {
 			switch f[4] {
 			case "onstop":
@@ -1005,7 +1029,7 @@ func (c *child) do(line string) string {
 			}
 			c.burstSeq++
 			its = append(its, &item{id: fmt.Sprintf("b%d-%d", c.burstSeq, k), kind: kv[0], outs: outs, free: true,
-				entered: make(chan int, 256), release: make(chan struct{}, 1), done: make(chan error, 1), http: make(chan int, 1)})
+				entered: make(chan int, 256), release: make(chan struct{}, 1), done: make(chan error, 1), http: make(chan string, 1)})
 		}
 		for _, it := range its {
 			if !c.launch(it) {
@@ -1038,7 +1062,7 @@ func (c *child) do(line string) string {
 			case strings.HasPrefix(it.kind, "api-"):
 				select {
 				case code := <-it.http:
-					res[i] = strconv.Itoa(code)
+					res[i] = code
 				case <-c.after(finishTimeout):
 					res[i] = "noreturn"
 					c.wedged = true
@@ -1270,7 +1294,11 @@ func (c *child) launch(it *item) bool {
 			rec := httptest.NewRecorder()
 			req := httptest.NewRequest(http.MethodGet, path, nil)
 			api.VerifC06Serve(rec, req)
-			it.http <- rec.Code
+			code := strconv.Itoa(rec.Code)
+			if body := rec.Body.String(); strings.Contains(body, "Internal Server Error: ") && strings.Contains(body, "goroutine ") {
+				code += "d"
+			}
+			it.http <- code
 		}()
 	default:
 		return false
@@ -1305,7 +1333,7 @@ func (c *child) finish(it *item) string {
 	case strings.HasPrefix(it.kind, "api-"):
 		select {
 		case code := <-it.http:
-			httpS = strconv.Itoa(code)
+			httpS = code
 		case <-c.after(finishTimeout):
 			httpS, syn = "noreturn", "timeout"
 		}
